@@ -1062,6 +1062,14 @@ func (ci ChainIndex) MarshalJSON() ([]byte, error) {
 
 // UnmarshalJSON implements json.Unmarshaler.
 func (ci *ChainIndex) UnmarshalJSON(b []byte) error {
+	// as the key of a JSON object, a ChainIndex is written in its text form
+	if len(b) > 0 && b[0] == '"' {
+		var s string
+		if err := json.Unmarshal(b, &s); err != nil {
+			return err
+		}
+		return ci.UnmarshalText([]byte(s))
+	}
 	type jsonCI ChainIndex // hide UnmarshalText method
 	return json.Unmarshal(b, (*jsonCI)(ci))
 }
